@@ -118,6 +118,10 @@ def _gen_case(rng, tier):
             prog['post'] = ['retype']
         if rng.random() < 0.1:
             prog['lazy'] = True
+        if 'before' not in prog and rng.random() < 0.1:
+            # a before-request hook reads the body first; the handler (maybe lazily) reads it again
+            prog['before'] = ['body_quiet']
+            prog['lazy'] = rng.random() < 0.6
         if prog:
             case['prog'] = prog
     return case
